@@ -278,8 +278,10 @@ def np_recip_sqrt(x, out=None):
 if mpmath:
     _mpmath_polylog_real = np.vectorize(
             mpmath.fp.polylog, otypes=[np.float64])
+    # (a numpy complex scalar would be converted with float() by mpmath and lose
+    # its imaginary part)
     _mpmath_polylog_complex = np.vectorize(
-            mpmath.fp.polylog, otypes=[np.complex128])
+            lambda s, z: mpmath.fp.polylog(s, complex(z)), otypes=[np.complex128])
 
 # hypergeometric functions have been removed from scipy -> commenting
 # # FIXME: these are also hacks that should go away eventually
